@@ -401,3 +401,60 @@ func subjectReachesTypeArgs(w *World, fi *FuncInfo, region ast.Node, subject ast
 	})
 	return found
 }
+
+// nsPkgRule (NS-PKG): a generator that writes every declaration into ONE namespace (the TypeScript file) must
+// make the printed name of a named type depend on the package that declares it: `models.Item` and `sub.Item` are
+// two types. Obligations: the sites of fnName that turn a go/types Named into a bare local name; discharged when
+// the enclosing function also reads the declaring package (Obj().Pkg()), directly or through a module helper.
+func nsPkgRule(w *World, r *Result, fnName string) int {
+	fi := w.MustFunc(fnName)
+	info := fi.Pkg.TypesInfo
+	readsPkg := false
+	var reach func(f *FuncInfo, depth int) bool
+	reach = func(f *FuncInfo, depth int) bool {
+		found := false
+		ast.Inspect(f.Decl.Body, func(x ast.Node) bool {
+			call, ok := x.(*ast.CallExpr)
+			if !ok || found {
+				return true
+			}
+			fn := calleeOf(f.Pkg.TypesInfo, call)
+			if fn == nil {
+				return true
+			}
+			if fn.FullName() == "(*go/types.object).Pkg" || fn.FullName() == "(*go/types.TypeName).Pkg" || fn.FullName() == "(go/types.Object).Pkg" {
+				found = true
+				return false
+			}
+			if depth > 0 {
+				if callee := w.Funcs[fn]; callee != nil && callee != f && callee.Decl.Body != nil && reach(callee, depth-1) {
+					found = true
+				}
+			}
+			return true
+		})
+		return found
+	}
+	readsPkg = reach(fi, 2)
+	n := 0
+	ast.Inspect(fi.Decl.Body, func(x ast.Node) bool {
+		call, ok := x.(*ast.CallExpr)
+		if !ok {
+			return true
+		}
+		fn := calleeOf(info, call)
+		if fn == nil || fn.FullName() != "github.com/benoitkugler/gomacro/analysis.LocalName" {
+			return true
+		}
+		n++
+		cons := es(call)
+		pos := w.Pos(call.Pos())
+		if readsPkg {
+			r.ok("NS-PKG", fi.Name, cons, pos, "the printed name also depends on the declaring package", true)
+		} else {
+			r.bad("NS-PKG", fi.Name, cons, pos, "all declarations share one namespace, and the name printed for a named type is its local name only: two types with the same name in two analysed packages (models.Item, sub.Item) are printed under one name -- TypeScript merges the two `interface Item` declarations, so a document of either Go type does not inhabit the declared type")
+		}
+		return true
+	})
+	return n
+}
